@@ -30,26 +30,40 @@ type c16Scn struct {
 	Consumer string // all | stop<k>
 	Stop     string // "" | close | stoptrav   (may be inserted once at any position)
 	Starts   int    // how many of the peers are starting nodes
+	Sec      bool   // ServerConfig.NoSecurity=false: peers have BEP 42 valid IDs, 'o' answers under an invalid one
 }
 
 func (s c16Scn) unit() string {
-	return fmt.Sprintf("cons=%s;beh=%s;opt=%s;stop=%s;starts=%d", s.Consumer, s.Beh, s.Opt, s.Stop, s.Starts)
+	u := fmt.Sprintf("cons=%s;beh=%s;opt=%s;stop=%s;starts=%d", s.Consumer, s.Beh, s.Opt, s.Stop, s.Starts)
+	if s.Sec {
+		u += ";sec=1"
+	}
+	return u
 }
 
 func parseC16(unit string) (s c16Scn) {
 	m := kv(strings.Split(unit, ";"))
 	s.Beh, s.Opt, s.Consumer, s.Stop = m["beh"], m["opt"], m["cons"], m["stop"]
 	fmt.Sscanf(m["starts"], "%d", &s.Starts)
+	s.Sec = m["sec"] == "1"
 	return
 }
 
-func c16Peers(beh string) []*simPeer {
+func c16Peers(beh string, sec bool) []*simPeer {
 	var ps []*simPeer
 	for i := range beh {
 		// IDs at increasing distance from the infohash ihA
 		id := ihA
 		id[19] ^= byte(i + 1)
 		p := &simPeer{Name: fmt.Sprintf("p%d", i+1), Addr: sim.UDP4(70, 0, 0, byte(i+1), 7001+i), ID: id}
+		if sec {
+			// BEP 42 valid for the peer's address, by the independent reference
+			pre := refSecurePrefix(p.Addr.IP, id[19])
+			p.ID[0], p.ID[1], p.ID[2] = pre[0], pre[1], pre[2]|(id[2]&7)
+			if !refSecure(p.ID, p.Addr.IP) {
+				panic("c16Peers: reference-made ID is not secure")
+			}
+		}
 		ps = append(ps, p)
 	}
 	for i, b := range beh {
@@ -73,6 +87,9 @@ func c16Peers(beh string) []*simPeer {
 			p.Token = strp("tok:" + p.Name)
 			other := ihA
 			other[19] ^= byte(0x40 + i)
+			if sec && refSecure(other, p.Addr.IP) {
+				other[0] ^= 0x80
+			}
 			p.ClaimID = &other
 		}
 	}
@@ -88,8 +105,9 @@ func runC16(t *testing.T, c explore.Case) (res explore.Result, enabled []string)
 	scn := parseC16(c.Unit)
 	var outcome string
 	pan := Bubble(t, func() {
-		peers := c16Peers(scn.Beh)
+		peers := c16Peers(scn.Beh, scn.Sec)
 		y := NewSys(func(cfg *dht.ServerConfig) {
+			cfg.NoSecurity = !scn.Sec
 			cfg.QueryResendDelay = func() time.Duration { return time.Second }
 			cfg.StartingNodes = func() ([]dht.Addr, error) {
 				var out []dht.Addr
@@ -319,6 +337,11 @@ func runC16(t *testing.T, c explore.Case) (res explore.Result, enabled []string)
 		}
 		tokenOf := map[string]*string{}
 		for _, d := range responses {
+			if scn.Sec && d.p.ClaimID != nil && !refSecure(*d.p.ClaimID, d.p.Addr.IP) {
+				// answered under an ID that is not valid for its address: never a member of the
+				// closest set when security is enforced
+				continue
+			}
 			tokenOf[d.p.Addr.String()] = d.p.Token
 		}
 		perDest := map[string]int{}
@@ -334,7 +357,7 @@ func runC16(t *testing.T, c explore.Case) (res explore.Result, enabled []string)
 			}
 			tok, responded := tokenOf[dst]
 			if !responded || tok == nil {
-				res.Viol = fmt.Sprintf("announce-outside-closest: announce_peer sent to %s, which did not answer get_peers with a token in this traversal", dst)
+				res.Viol = fmt.Sprintf("announce-outside-closest: announce_peer sent to %s, which did not answer get_peers with a token in this traversal%s", dst, map[bool]string{true: " under a node ID that is valid for its address (security is enforced)", false: ""}[scn.Sec])
 				return
 			}
 			if perDest[dst] > 1 {
@@ -450,6 +473,22 @@ func c16Scenarios(thorough bool) (out []c16Scn) {
 					}
 				}
 			}
+		}
+	}
+	// BEP 42 enforced (NoSecurity=false): responders with valid IDs, responders answering under an
+	// ID that is not valid for their address ('o'), and tokenless ones
+	for _, a := range "nox" {
+		for _, b := range "nox" {
+			for _, c := range "nox" {
+				for _, starts := range []int{1, 2} {
+					out = append(out, c16Scn{Beh: string([]rune{a, b, c}), Opt: "port", Consumer: "all", Starts: starts, Sec: true})
+				}
+			}
+		}
+	}
+	for _, d := range []string{"onvo", "nono"} {
+		for _, stop := range []string{"", "close", "stoptrav"} {
+			out = append(out, c16Scn{Beh: d, Opt: "implied", Consumer: "all", Stop: stop, Starts: 2, Sec: true})
 		}
 	}
 	// a consumer that stops reading for good and closes the announce (known finding K2)
